@@ -191,6 +191,9 @@ func (in *Interp) concreteInt(v Value, what string) int {
 	if !ok || !t.IsConst() {
 		// try to concretise through the solver: unique value on this path?
 		if ok {
+			if in.Sol.Check(in.Guard()) == smt.Unsat {
+				panic(killPath{}) // this alternative / path cannot occur
+			}
 			if k, uniq := in.uniqueValue(t); uniq {
 				return int(int64(k))
 			}
